@@ -68,6 +68,11 @@ register('C13', 'Hypothesis-generated and deterministic graded meshes; smallest 
          'seam, corner and final time, both switches; child blocks and the three hierarchical scalings positive.',
          'numpy eigvalsh; serial assembly path', 'DESIGN.md 3/C13')
 
+register('C07', 'Hypothesis (element, time class, position class) points against a 1-D graded reference integral; integral clause against bilform',
+         'evaluate / evaluate_exact / evaluate_vector at stratified points incl. end points, the near layer, the seam, neighbouring sides, with the three tolerances '
+         'of the property; tensor Gauss integral of the evaluation over later test elements reproduces the Galerkin entry.',
+         'vlib/refint.evaluate at two resolutions; preconditions of the property (1e-5 end distance, ratio <= 16) enforced and counted', 'DESIGN.md 3/C07')
+
 NOT_YET = {}
 def main():
     props = [json.loads(l)['id'] for l in open(os.path.join(V, 'properties.jsonl'))]
